@@ -432,6 +432,12 @@ pub mod sched {
     }
 
     static ACTIVE: AtomicBool = AtomicBool::new(false);
+    static SUBS: AtomicBool = AtomicBool::new(false);
+
+    /// Whether worker sub-threads (merkle update workers) are put under scheduler control.
+    pub fn control_workers(on: bool) {
+        SUBS.store(on, Ordering::SeqCst);
+    }
     static CUR: Mutex<Option<Arc<Sched>>> = Mutex::new(None);
     thread_local! { static ME: Cell<Option<usize>> = Cell::new(None); }
 
@@ -540,6 +546,14 @@ pub mod sched {
         park(&s, me, label, lock_id, mode, probe);
     }
 
+    /// A scheduling point inside a worker sub-thread; inert unless workers are under control.
+    pub fn worker_point(label: &str) {
+        if !SUBS.load(Ordering::SeqCst) {
+            return;
+        }
+        point(label, &|| true);
+    }
+
     /// Register the calling thread as controlled thread `id` and park at its start point.
     pub fn thread_begin(id: usize) {
         ME.with(|m| m.set(Some(id)));
@@ -558,46 +572,67 @@ pub mod sched {
         ME.with(|m| m.set(None));
     }
 
-    /// Announce that `n` worker sub-threads are about to be started by the running API call.
+    /// Announce that `n` worker sub-threads (numbered 0..n) are about to be started by the running
+    /// API call. Their slots are created right away so that the scheduler waits for them.
     pub fn expect_subs(n: usize) {
+        if !SUBS.load(Ordering::SeqCst) {
+            return;
+        }
         let Some(s) = current() else { return };
         let mut g = s.m.lock().unwrap();
-        g.expected_subs += n;
+        g.expected_subs = g.slots.len(); // base index of this group
+        for _ in 0..n {
+            g.slots.push(Slot::new(true));
+        }
+        g.subs_started += n;
         s.cv.notify_all();
     }
 
-    /// Called at the start of a worker sub-thread: registers it and parks at its start point.
-    pub fn sub_begin(label: &str) {
-        let Some(s) = current() else { return };
-        let id = {
-            let mut g = s.m.lock().unwrap();
-            if g.expected_subs == 0 {
+    /// Registration of a worker sub-thread for the duration of its task.
+    pub struct SubGuard {
+        active: bool,
+    }
+
+    impl SubGuard {
+        /// Called at the start of worker `idx` of the group announced last: parks at its start
+        /// point.
+        pub fn begin(idx: usize, label: &str) -> SubGuard {
+            if !SUBS.load(Ordering::SeqCst) {
+                return SubGuard { active: false };
+            }
+            let Some(s) = current() else { return SubGuard { active: false } };
+            let id = {
+                let mut g = s.m.lock().unwrap();
+                let id = g.expected_subs + idx;
+                if g.subs_started == 0 || id >= g.slots.len() || !g.slots[id].is_sub {
+                    return SubGuard { active: false };
+                }
+                g.sub_slots.insert(std::thread::current().id(), id);
+                id
+            };
+            park(&s, id, label, 0, Mode::Plain, &|| true);
+            SubGuard { active: true }
+        }
+    }
+
+    impl Drop for SubGuard {
+        fn drop(&mut self) {
+            if !self.active {
                 return;
             }
-            g.expected_subs -= 1;
-            g.subs_started += 1;
-            g.slots.push(Slot::new(true));
-            let id = g.slots.len() - 1;
-            g.sub_slots.insert(std::thread::current().id(), id);
-            id
-        };
-        park(&s, id, label, 0, Mode::Plain, &|| true);
-    }
-
-    /// Called at the end of a worker sub-thread.
-    pub fn sub_end() {
-        let Some(s) = current() else { return };
-        let mut g = s.m.lock().unwrap();
-        let Some(id) = g.sub_slots.remove(&std::thread::current().id()) else { return };
-        g.slots[id].st = St::Done;
-        g.subs_done += 1;
-        s.cv.notify_all();
+            let Some(s) = current() else { return };
+            let mut g = s.m.lock().unwrap();
+            let Some(id) = g.sub_slots.remove(&std::thread::current().id()) else { return };
+            g.slots[id].st = St::Done;
+            g.subs_done += 1;
+            s.cv.notify_all();
+        }
     }
 
     /// Whether every announced worker sub-thread has finished.
     pub fn subs_all_done() -> bool {
         let Some(s) = current() else { return true };
         let g = s.m.lock().unwrap();
-        g.expected_subs == 0 && g.subs_done == g.subs_started
+        g.subs_done == g.subs_started
     }
 }
